@@ -42,6 +42,24 @@ pub mod rust_log_ref_finder
         false
     }
 
+    /// Byte offsets at which the lines of `code` start.
+    fn line_starts(code: &str) -> Vec<usize>
+    {
+        let mut starts = vec![0];
+        starts.extend(code.match_indices('\n').map(|(i, _)| i + 1));
+        starts
+    }
+
+    /// The 1-based (line, column) of the byte offset `pos`, columns counted in characters.
+    /// Gives what `pest::Position::line_col` gives, without rescanning the text from its
+    /// start for every log statement.
+    fn line_col_at(code: &str, starts: &[usize], pos: usize) -> (usize, usize)
+    {
+        let line = starts.partition_point(|&start| start <= pos) - 1;
+
+        (line + 1, code[starts[line]..pos].chars().count() + 1)
+    }
+
     /// Finds all log references in the given code.
     ///
     /// # Arguments
@@ -59,6 +77,7 @@ pub mod rust_log_ref_finder
         }
 
         let mut result = Vec::new();
+        let starts = line_starts(code);
 
         let mut outer_most_parsed_target = match RustParser::parse(Rule::file, code)
         {
@@ -228,11 +247,10 @@ pub mod rust_log_ref_finder
                                     None => continue,
                                     Some(span) =>
                                     {
-                                        code_pos = Some(CodePosition::new(
-                                            span.start(),
-                                            span.start_pos().line_col().0,
-                                            span.start_pos().line_col().1,
-                                        ));
+                                        let (line, column) =
+                                            line_col_at(code, &starts, span.start());
+                                        code_pos =
+                                            Some(CodePosition::new(span.start(), line, column));
 
                                         ref_kind = LogRefKind::StructuredPreExisting;
                                         // The value's span includes any blanks up to the delimiter
@@ -280,16 +298,24 @@ pub mod rust_log_ref_finder
                              */
                             code_pos = Some(match after_target_pos
                             {
-                                Some(pos) => CodePosition::new(
-                                    pos.pos(),
-                                    pos.line_col().0,
-                                    pos.line_col().1,
-                                ),
-                                None => CodePosition::new(
-                                    rule_ref_container_span.start() + 1,
-                                    rule_ref_container_span.start_pos().line_col().0,
-                                    rule_ref_container_span.start_pos().line_col().1 + 1,
-                                ),
+                                Some(pos) =>
+                                {
+                                    let (line, column) = line_col_at(code, &starts, pos.pos());
+                                    CodePosition::new(pos.pos(), line, column)
+                                },
+                                None =>
+                                {
+                                    let (line, column) = line_col_at(
+                                        code,
+                                        &starts,
+                                        rule_ref_container_span.start(),
+                                    );
+                                    CodePosition::new(
+                                        rule_ref_container_span.start() + 1,
+                                        line,
+                                        column + 1,
+                                    )
+                                },
                             });
                         }
                     }
@@ -306,11 +332,8 @@ pub mod rust_log_ref_finder
                             None => continue,
                             Some(span) =>
                             {
-                                code_pos = Some(CodePosition::new(
-                                    span.start(),
-                                    span.start_pos().line_col().0,
-                                    span.start_pos().line_col().1,
-                                ));
+                                let (line, column) = line_col_at(code, &starts, span.start());
+                                code_pos = Some(CodePosition::new(span.start(), line, column));
 
                                 ref_kind = LogRefKind::String;
                                 reference =
